@@ -5,7 +5,7 @@ from hypothesis import strategies as st
 
 from .. import gen
 from ..common import TOL, graph_from_json, inconclusive, invalid_config, ok, violation
-from ..models import ConstraintSpec, flow_of, run_model, solver_artifact, timed_out
+from ..models import ConstraintSpec, count_artifact, flow_of, run_model, solver_artifact, timed_out
 from ..oracle import bf
 from ..oracle.routes import all_st_paths, check_route
 
@@ -210,6 +210,8 @@ def run_case(case, tier="quick"):
     planted = meta.get("planted")
     if witness:
         distinct_planted = len({tuple(p) for p, _w in planted})
+        if n > distinct_planted and count_artifact(case, tier, n):
+            return inconclusive("solver artefact: number of paths changes with HiGHS presolve off", labels)
         if n > distinct_planted:
             return violation(
                 "not_minimum_vs_planted",
@@ -225,6 +227,8 @@ def run_case(case, tier="quick"):
         pred = spec.predicate([spec.elements_of(p_) for p_ in all_paths])
         found, wit = bf.exists_fd_with_at_most(route_mults, n - 1, f_req, wt, pred)
         exhaustive = True
+        if found and count_artifact(case, tier, n):
+            return inconclusive("solver artefact: number of paths changes with HiGHS presolve off", labels)
         if found:
             sub, ws = wit
             return violation(
